@@ -136,6 +136,9 @@ macro_rules! family {
         }
         impl<A: Leaf, B: Leaf, C: Leaf> ZooMsg for $E<A, B, C> {
             const NAME: &'static str = $ename;
+            fn default_val() -> Option<Val> {
+                Some(Val::V(0, vec![]))
+            }
             fn name() -> String {
                 format!("{}<{},{},{}>", $ename, A::LNAME, B::LNAME, C::LNAME)
             }
@@ -328,6 +331,79 @@ impl ZooMsg for Entries {
     }
 }
 
+// portable string as a field at an odd offset (length type with size > alignment)
+#[flat(sized = false, portable = true, default = true)]
+pub struct PStrField {
+    pub a: u8,
+    pub s: flatty::FlatString<le::U16>,
+}
+impl ZooMsg for PStrField {
+    const NAME: &'static str = "PStrField";
+    fn gen(g: &mut Gen) -> Val {
+        let a = g.int(8, false);
+        let n = g.len();
+        Val::R(vec![Val::I(a), Val::S(g.string(n))])
+    }
+    fn emplace_val<'b>(bytes: &'b mut [u8], v: &Val) -> Result<&'b mut Self, Error> {
+        Self::new_in_place(bytes, PStrFieldInit { a: v.field(0).int() as u8, s: flatty::string::FromStr(v.field(1).str()) })
+    }
+    fn read(&self) -> Val {
+        Val::R(vec![Val::I(self.a as i128), rd_str(&self.s)])
+    }
+    fn tweak(&mut self, g: &mut Gen) {
+        tweak_str(&mut self.s, g);
+    }
+}
+
+// default variant that is neither the first variant nor the first unit variant
+#[flat(sized = false, default = true)]
+pub enum MidDefault {
+    Reset,
+    #[default]
+    Idle,
+    Data(u16, FlatVec<u8, u8>),
+    Stop,
+}
+impl ZooMsg for MidDefault {
+    const NAME: &'static str = "MidDefault";
+    fn default_val() -> Option<Val> {
+        Some(Val::V(1, vec![]))
+    }
+    fn gen(g: &mut Gen) -> Val {
+        match g.weighted(&[2, 2, 4, 1]) {
+            0 => Val::V(0, vec![]),
+            1 => Val::V(1, vec![]),
+            2 => {
+                let a = g.int(16, false);
+                let n = g.len();
+                Val::V(2, vec![Val::I(a), Val::L((0..n).map(|_| Val::I(g.int(8, false))).collect())])
+            }
+            _ => Val::V(3, vec![]),
+        }
+    }
+    fn emplace_val<'b>(bytes: &'b mut [u8], v: &Val) -> Result<&'b mut Self, Error> {
+        match v.tag() {
+            0 => Self::new_in_place(bytes, MidDefaultInitReset),
+            1 => Self::new_in_place(bytes, MidDefaultInitIdle),
+            2 => Self::new_in_place(bytes, MidDefaultInitData(v.field(0).int() as u16, flatty::vec::FromIterator(v.field(1).list().iter().map(|x| x.int() as u8)))),
+            _ => Self::new_in_place(bytes, MidDefaultInitStop),
+        }
+    }
+    fn read(&self) -> Val {
+        match self.as_ref() {
+            MidDefaultRef::Reset => Val::V(0, vec![]),
+            MidDefaultRef::Idle => Val::V(1, vec![]),
+            MidDefaultRef::Data(a, v) => Val::V(2, vec![Val::I(*a as i128), rd_vec(v, |x| Val::I(*x as i128))]),
+            MidDefaultRef::Stop => Val::V(3, vec![]),
+        }
+    }
+    fn tweak(&mut self, g: &mut Gen) {
+        if let MidDefaultMut::Data(_, v) = self.as_mut() {
+            tweak_vec(v, g, |g| g.int(8, false) as u8);
+        }
+    }
+}
+
 // smallest variant last
 #[flat(sized = false, default = true)]
 pub enum LastUnit {
@@ -338,6 +414,9 @@ pub enum LastUnit {
 }
 impl ZooMsg for LastUnit {
     const NAME: &'static str = "LastUnit";
+    fn default_val() -> Option<Val> {
+        Some(Val::V(2, vec![]))
+    }
     fn gen(g: &mut Gen) -> Val {
         match g.weighted(&[3, 2, 3]) {
             0 => {
